@@ -155,7 +155,7 @@ fn make_pipeline(k: PKind, opt: u32, real: bool) -> Pipeline {
 }
 
 #[derive(Clone, Copy, PartialEq, Eq, Debug)]
-enum Req { Exec(usize), Compile(usize) }
+enum Req { Exec(usize), Compile(usize), CompileAst(usize), CompileAstOther(usize) }
 
 /// (canonical result, captured output, detail, heap objects of a compile result)
 struct Obs { class: String, output: String, detail: String, heap_objs: i64, unit: Option<CodeSnap> }
@@ -171,7 +171,21 @@ fn do_request(p: &mut Pipeline, r: Req, pool: &[String], names: &[String]) -> Ob
             Ok(v) => (render_value(v), String::new(), -1, None),
             Err(e) => { let (c, d) = render_err(&e); (c, d, -1, None) }
         },
-        Req::Compile(i) => match p.compile_str(&nm(i), &pool[i]) {
+        Req::Compile(_) | Req::CompileAst(_) | Req::CompileAstOther(_) => match (|| {
+            let (i, ast_of) = match r { Req::Compile(i) => (i, None), Req::CompileAst(i) => (i, Some(i)), Req::CompileAstOther(i) => (i, Some((i + 1) % pool.len())), Req::Exec(i) => (i, None) };
+            match ast_of {
+                None => p.compile_str(&nm(i), &pool[i]),
+                Some(j) => {
+                    // the caller parses a text himself and hands the AST in, together with source i
+                    let parsed = Source::new(&nm(j), &pool[j]);
+                    let toks = aelys_frontend::lexer::Lexer::with_source(parsed.clone()).scan()
+                        .map_err(|e| PipelineError::StageError { stage: "caller-lexer".into(), message: e.to_string() })?;
+                    let stmts = aelys_frontend::parser::Parser::new(toks, parsed).parse()
+                        .map_err(|e| PipelineError::StageError { stage: "caller-parser".into(), message: e.to_string() })?;
+                    p.compile_ast(stmts, Source::new(&nm(i), &pool[i]))
+                }
+            }
+        })() {
             Ok((f, h)) => {
                 let objs = h.object_count() as i64;
                 let ser = guarded(std::panic::AssertUnwindSafe(|| aelys_bytecode::asm::serialize(&f, &h)));
@@ -319,12 +333,12 @@ impl<'a> Gen<'a> {
 struct Hist { names: Vec<String>, kind: PKind, opt: u32, pool: Vec<String>, feats: Vec<Vec<&'static str>>, reqs: Vec<Req>, origin: String }
 
 fn hist_string(reqs: &[Req]) -> String {
-    reqs.iter().map(|r| match r { Req::Exec(i) => format!("E{}", i), Req::Compile(i) => format!("C{}", i) }).collect::<Vec<_>>().join(" ")
+    reqs.iter().map(|r| match r { Req::Exec(i) => format!("E{}", i), Req::Compile(i) => format!("C{}", i), Req::CompileAst(i) => format!("A{}", i), Req::CompileAstOther(i) => format!("X{}", i) }).collect::<Vec<_>>().join(" ")
 }
 fn parse_hist(s: &str) -> Vec<Req> {
     s.split_whitespace().filter_map(|t| {
         let i: usize = t[1..].parse().ok()?;
-        match &t[..1] { "E" => Some(Req::Exec(i)), "C" => Some(Req::Compile(i)), _ => None }
+        match &t[..1] { "E" => Some(Req::Exec(i)), "C" => Some(Req::Compile(i)), "A" => Some(Req::CompileAst(i)), "X" => Some(Req::CompileAstOther(i)), _ => None }
     }).collect()
 }
 
@@ -358,7 +372,7 @@ fn gen_hist(rng: &mut Rng) -> Hist {
     for _ in 0..len {
         let i = rng.below(npool as u64) as usize;
         let compile = match kind { PKind::Compilation => true, _ => if outside { only_compile } else { rng.chance(1, 4) } };
-        reqs.push(if compile { Req::Compile(i) } else { Req::Exec(i) });
+        reqs.push(if compile { match rng.below(6) { 0 => Req::CompileAst(i), 1 if npool > 1 => Req::CompileAstOther(i), _ => Req::Compile(i) } } else { Req::Exec(i) });
     }
     let names: Vec<String> = if rng.chance(1, 2) { pool.iter().map(|_| "main".to_string()).collect() } else { (0..pool.len()).map(|i| format!("src{}", i)).collect() };
     Hist { names, kind, opt, pool, feats, reqs, origin: if outside { "generated-outside-known".into() } else { "generated".into() } }
@@ -412,7 +426,7 @@ fn read_corpus(path: &str) -> Option<Hist> {
             s.push('\n');
         }
     }
-    if pool.is_empty() || reqs.iter().any(|r| match r { Req::Exec(i) | Req::Compile(i) => *i >= pool.len() }) { return None; }
+    if pool.is_empty() || reqs.iter().any(|r| match r { Req::Exec(i) | Req::Compile(i) | Req::CompileAst(i) | Req::CompileAstOther(i) => *i >= pool.len() }) { return None; }
     let feats = pool.iter().map(|_| vec!["corpus"]).collect();
     let mut names: Vec<String> = (0..pool.len()).map(|i| if same_name { "main".to_string() } else { format!("src{}", i) }).collect();
     for (i, n) in given { if i < names.len() { names[i] = n; } }
@@ -477,13 +491,13 @@ fn run_hist(hid: usize, h: &Hist) {
         let mut fresh = make_pipeline(h.kind, h.opt, true);
         let c = do_request(&mut fresh, r, &h.pool, &h.names);
         // heap constants owned by the compiled unit of this source (measured on a fresh compile)
-        let si = match r { Req::Exec(i) | Req::Compile(i) => i };
+        let si = match r { Req::Exec(i) | Req::Compile(i) | Req::CompileAst(i) | Req::CompileAstOther(i) => i };
         let mut cp = make_pipeline(h.kind, h.opt, true);
         let objs = match guarded(std::panic::AssertUnwindSafe(|| cp.compile_str(&h.names[si], &h.pool[si]).map(|(_, hp)| hp.object_count() as i64))) {
             Ok(Ok(n)) => n,
             _ => -1,
         };
-        let same_src = |q: &Req| match q { Req::Exec(i) | Req::Compile(i) => *i == si };
+        let same_src = |q: &Req| match q { Req::Exec(i) | Req::Compile(i) | Req::CompileAst(i) | Req::CompileAstOther(i) => *i == si };
         let prior = h.reqs[..ri].iter().filter(|q| same_src(q)).count();
         let prior_exec = h.reqs[..ri].iter().filter(|q| matches!(q, Req::Exec(i) if *i == si)).count();
         // for compile results: where do the cached unit and the fresh unit differ
@@ -495,7 +509,7 @@ fn run_hist(hid: usize, h: &Hist) {
             _ => "-".to_string(),
         };
         println!("R\t{}\t{}\t{}\t{}\t{}\t{}\t{}\t{}\t{}\t{}\t{}\t{}\t{}\t{}\t{}\t{}\t{}\t{}", hid, ri,
-                 match r { Req::Exec(_) => "E", Req::Compile(_) => "C" }, si,
+                 match r { Req::Exec(_) => "E", Req::Compile(_) => "C", Req::CompileAst(_) => "A", Req::CompileAstOther(_) => "X" }, si,
                  a.class, b.class, d.class, c.class, esc(&a.output), esc(&b.output), esc(&d.output), esc(&c.output),
                  objs, prior, prior_exec, cdiff,
                  esc(&a.detail.chars().take(if flag("--dump") { 100000 } else { 300 }).collect::<String>()),
@@ -963,7 +977,7 @@ fn proto_main() {
                     Err(PipelineError::TypeMismatch { .. }) => (3, 0, 0),
                     Err(PipelineError::MissingInput { .. }) => (4, 0, 0),
                 },
-                Req::Compile(i) => match p.compile_str("syn", &format!("{}", i)) {
+                Req::Compile(i) | Req::CompileAst(i) | Req::CompileAstOther(i) => match p.compile_str("syn", &format!("{}", i)) {
                     Ok((f, h)) => (1, f.arity as i64, h.object_count() as i64),
                     Err(PipelineError::StageError { .. }) => (2, 0, 0),
                     Err(PipelineError::TypeMismatch { .. }) => (3, 0, 0),
@@ -975,7 +989,7 @@ fn proto_main() {
         }
         let stages: Vec<String> = specs.iter().map(|s| format!("mk_syn \"{}\" {} {} [{}]", s.name, s.cacheable, s.counter,
             s.acts.iter().map(|a| act_coq(*a)).collect::<Vec<_>>().join("; "))).collect();
-        let hist: Vec<String> = reqs.iter().map(|r| match r { Req::Exec(i) => format!("RExec {}", i), Req::Compile(i) => format!("RCompile {}", i) }).collect();
+        let hist: Vec<String> = reqs.iter().map(|r| match r { Req::Exec(i) => format!("RExec {}", i), Req::Compile(i) | Req::CompileAst(i) | Req::CompileAstOther(i) => format!("RCompile {}", i) }).collect();
         println!("([{}], [{}])\t[{}]\t{}", stages.join("; "), hist.join("; "), obs.join("; "), case);
     }
 }
